@@ -108,10 +108,11 @@ fn add_val_val<R: Round, const B: Word>(
 
     let context = Context::max(lhs.context, rhs.context);
     rhs.repr.significand *= rhs_sign;
+    // the shortcuts for a zero operand still have to honour the precision of the result
     let sum = if lhs.repr.is_zero() {
-        rhs.repr
+        context.repr_round(rhs.repr).value()
     } else if rhs.repr.is_zero() {
-        lhs.repr
+        context.repr_round(lhs.repr).value()
     } else {
         match lhs.repr.exponent.cmp(&rhs.repr.exponent) {
             Ordering::Equal => context.repr_round(Repr::new(
@@ -134,12 +135,13 @@ fn add_val_ref<R: Round, const B: Word>(
     assert_finite_operands(&lhs.repr, &rhs.repr);
 
     let context = Context::max(lhs.context, rhs.context);
+    // the shortcuts for a zero operand still have to honour the precision of the result
     let sum = if lhs.repr.is_zero() {
         let mut repr = rhs.repr.clone();
         repr.significand *= rhs_sign;
-        repr
+        context.repr_round(repr).value()
     } else if rhs.repr.is_zero() {
-        lhs.repr
+        context.repr_round(lhs.repr).value()
     } else {
         match lhs.repr.exponent.cmp(&rhs.repr.exponent) {
             Ordering::Equal => {
@@ -166,10 +168,11 @@ fn add_ref_val<R: Round, const B: Word>(
 
     let context = Context::max(lhs.context, rhs.context);
     rhs.repr.significand *= rhs_sign;
+    // the shortcuts for a zero operand still have to honour the precision of the result
     let sum = if lhs.repr.is_zero() {
-        rhs.repr
+        context.repr_round(rhs.repr).value()
     } else if rhs.repr.is_zero() {
-        lhs.repr.clone()
+        context.repr_round_ref(&lhs.repr).value()
     } else {
         match lhs.repr.exponent.cmp(&rhs.repr.exponent) {
             Ordering::Equal => context.repr_round(Repr::new(
@@ -192,12 +195,13 @@ fn add_ref_ref<R: Round, const B: Word>(
     assert_finite_operands(&lhs.repr, &rhs.repr);
 
     let context = Context::max(lhs.context, rhs.context);
+    // the shortcuts for a zero operand still have to honour the precision of the result
     let sum = if lhs.repr.is_zero() {
         let mut repr = rhs.repr.clone();
         repr.significand *= rhs_sign;
-        repr
+        context.repr_round(repr).value()
     } else if rhs.repr.is_zero() {
-        lhs.repr.clone()
+        context.repr_round_ref(&lhs.repr).value()
     } else {
         match lhs.repr.exponent.cmp(&rhs.repr.exponent) {
             Ordering::Equal => context.repr_round(Repr::new(
